@@ -90,6 +90,9 @@ func c16Judge(k c16Case) *vlib.Failure {
 			hasAC = hk
 		}
 	}
+	if res.ExtraWrites > 0 {
+		return vlib.Failf("the middleware called WriteHeader %d times on one preflight response (a writer that keeps the last call would send something else)", res.ExtraWrites+1)
+	}
 	must, why := c16MustFail(k.Cfg, k.Req)
 	if res.Status/100 != 2 || must {
 		if hasAC != "" {
